@@ -53,6 +53,60 @@ func calleeIs(v ssa.Value, suffix string) bool {
 	return strings.HasSuffix(ir.CalleeName(&c.Call), suffix)
 }
 
+// predKind classifies the boolean predicates the run outcome is computed from by
+// what they read, not by their names: "canceled" (derives from the scheduler's
+// cancel flag), "error" (lastError != nil), "succeed" (walks the graph's nodes
+// comparing their status), "started" / "running" (the graph's exported state).
+func (s *Sched) predKind(f *ssa.Function) string {
+	if f == nil || f.Blocks == nil {
+		return ""
+	}
+	e := s.e
+	switch f.Name() {
+	case "IsStarted":
+		return "started"
+	case "IsRunning":
+		return "running"
+	}
+	if f.Signature.Results().Len() != 1 || f.Signature.Results().At(0).Type().String() != "bool" {
+		return ""
+	}
+	reads := func(field string) bool {
+		for _, b := range f.Blocks {
+			for _, in := range b.Instrs {
+				if u, ok := in.(*ssa.UnOp); ok && u.Op == token.MUL {
+					if p, okp := e.C.PathOf(u); okp && len(p.Fields) == 1 && p.Fields[0] == field && strings.HasSuffix(ir.NamedType(p.Root.Type()), ".Scheduler") {
+						return true
+					}
+				}
+			}
+		}
+		return false
+	}
+	switch {
+	case reads("canceled"):
+		return "canceled"
+	case reads("lastError"):
+		return "error"
+	}
+	if len(ir.Loops(f)) > 0 {
+		// compares node statuses with the finished constant
+		succ := s.val("NodeStatusSuccess")
+		for _, b := range f.Blocks {
+			for _, in := range b.Instrs {
+				if bo, ok := in.(*ssa.BinOp); ok {
+					for _, side := range []ssa.Value{bo.X, bo.Y} {
+						if k, isK := ir.ConstInt(side); isK && k == succ && strings.HasSuffix(ir.NamedType(side.Type()), ".NodeStatus") {
+							return "succeed"
+						}
+					}
+				}
+			}
+		}
+	}
+	return ""
+}
+
 func c04StatusTable(e *Env, s *Sched) {
 	r := e.R
 	r.Rule("C04.status-table", "DCS", "Status(): each returned constant under the oracle's conditions", 5)
@@ -65,12 +119,29 @@ func c04StatusTable(e *Env, s *Sched) {
 		pol    bool
 	}
 	table := map[string][]need{
-		"StatusCancel":  {{").isCanceled", true}, {").isSucceed", false}},
-		"StatusNone":    {{").IsStarted", false}},
-		"StatusRunning": {{").IsStarted", true}, {").IsRunning", true}},
-		"StatusError":   {{").IsStarted", true}, {").IsRunning", false}, {").isError", true}},
-		"StatusSuccess": {{").IsStarted", true}, {").IsRunning", false}, {").isError", false}},
+		"StatusCancel":  {{"canceled", true}, {"succeed", false}},
+		"StatusNone":    {{"started", false}},
+		"StatusRunning": {{"started", true}, {"running", true}},
+		"StatusError":   {{"started", true}, {"running", false}, {"error", true}},
+		"StatusSuccess": {{"started", true}, {"running", false}, {"error", false}},
 	}
+	kindOf := func(x ssa.Value) string {
+		c, ok := ir.Resolve(x).(*ssa.Call)
+		if !ok {
+			return ""
+		}
+		return s.predKind(c.Call.StaticCallee())
+	}
+	var isErrFn, isSuccFn *ssa.Function
+	for _, ci := range ir.CallsIn(fn, func(c *ssa.CallCommon) bool { return c.StaticCallee() != nil }) {
+		switch s.predKind(ci.Common().StaticCallee()) {
+		case "error":
+			isErrFn = ci.Common().StaticCallee()
+		case "succeed":
+			isSuccFn = ci.Common().StaticCallee()
+		}
+	}
+	s.IsSucceed = isSuccFn
 	seen := map[string]bool{}
 	for _, b := range fn.Blocks {
 		for _, in := range b.Instrs {
@@ -98,9 +169,9 @@ func c04StatusTable(e *Env, s *Sched) {
 				ok := true
 				var missing []string
 				for _, nd := range table[name] {
-					if !HasVal(lits, func(x ssa.Value) bool { return calleeIs(x, nd.callee) }, nd.pol) {
+					if !HasVal(lits, func(x ssa.Value) bool { return kindOf(x) == nd.callee }, nd.pol) {
 						ok = false
-						missing = append(missing, sprintf("%s==%v", strings.TrimPrefix(nd.callee, ")."), nd.pol))
+						missing = append(missing, sprintf("%s==%v", nd.callee, nd.pol))
 					}
 				}
 				if _, known := table[name]; !known {
@@ -117,7 +188,10 @@ func c04StatusTable(e *Env, s *Sched) {
 		}
 	}
 	// isError is `lastError != nil`
-	ie := e.Fn(schedRel, "(*Scheduler).isError")
+	ie := isErrFn
+	if ie == nil {
+		r.Unknown("Status(): the predicate reading lastError", e.Pos(fn.Pos()), "Status() consults no function that reads Scheduler.lastError")
+	}
 	if ie != nil {
 		ok := false
 		for _, b := range ie.Blocks {
@@ -143,8 +217,18 @@ func c04StatusTable(e *Env, s *Sched) {
 func c04SucceedTable(e *Env, s *Sched) {
 	r := e.R
 	r.Rule("C04.succeed-table", "DCS+ENUM", "isSucceed: true only after exhaustion; skip only Success/Skipped", 2)
-	fn := e.Fn(schedRel, "(*Scheduler).isSucceed")
+	fn := s.IsSucceed
 	if fn == nil {
+		if st := e.FnQuiet(schedRel, "(*Scheduler).Status"); st != nil {
+			for _, ci := range ir.CallsIn(st, func(c *ssa.CallCommon) bool { return c.StaticCallee() != nil }) {
+				if s.predKind(ci.Common().StaticCallee()) == "succeed" {
+					fn = ci.Common().StaticCallee()
+				}
+			}
+		}
+	}
+	if fn == nil {
+		r.Unknown("Status(): the all-nodes-succeeded predicate", "-", "Status() consults no function that walks the nodes comparing their status with finished")
 		return
 	}
 	loops := ir.Loops(fn)
